@@ -132,7 +132,8 @@ class PrecisionState:
         self.mp_prec = ambient      # int (bits), or None = unknown ambient precision
         self.flags = []             # list of dicts describing inexact / unbounded operations
         self.ambient_ops = []       # (what, num term, den) of mp operations done at ambient precision
-        self.assume_float_exact = False
+        self.inexact_ops = []       # (what, kind, num term, den, prec): exactness not implied by interval bounds
+        self.robust_cmps = []       # (numerator of a-b, denominator, error bound): comparisons of rounded values
 
     def flag(self, kind, what, **kw):
         d = {"kind": kind, "what": what}
@@ -264,10 +265,12 @@ class SymInt:
     __rmul__ = __mul__
 
     def __truediv__(self, o):
-        return SymQ.of(self) / o
+        if isinstance(o, SymReal):
+            return SymReal.of(self) / o
+        return SymQ.of(self, "f") / o      # int / int is binary64 true division in the real code
 
     def __rtruediv__(self, o):
-        return SymQ.of(o) / self
+        return SymQ.of(o, "f") / self
 
     def __floordiv__(self, o):
         if isinstance(o, int) and not isinstance(o, bool) and o != 0:
@@ -417,7 +420,13 @@ class SymQ:
 
     # -- rounding model ------------------------------------------------------------------------
     def _finish(self, a, b, what):
-        """Set kind and account for rounding of the operation that produced self from a, b."""
+        """Set kind and account for rounding of the operation that produced self from a, b.
+
+        Exactly representable results (power-of-two denominator and numerator below 2^prec, established
+        from the interval bounds) need nothing.  If the bounds do not establish it, the operation is
+        logged in PREC.inexact_ops and becomes a solver obligation at the end of the path.  A result
+        with a non-power-of-two denominator is inherently rounded: its error bound grows by
+        bound * 2^-prec."""
         kinds = (a.kind, b.kind if b is not None else None)
         if "mp" in kinds:
             self.kind = "mp"
@@ -426,7 +435,6 @@ class SymQ:
         else:
             self.kind = None
             return self
-        err_in = self.err
         if self.kind == "mp":
             prec = PREC.mp_prec
             if prec is None:
@@ -434,15 +442,16 @@ class SymQ:
                 return self
         else:
             prec = 53
+        if is_pow2(self.den):
+            if self.err == 0 and self.bound is not None and self.bound * self.den < (1 << prec):
+                return self  # exactly representable: numerator fits the mantissa
+            if self.err == 0:
+                PREC.inexact_ops.append((what, self.kind, self.num, self.den, prec))
+                return self
         if self.bound is None:
             PREC.flag("unbounded", what)
             return self
-        if err_in == 0 and is_pow2(self.den) and self.bound * self.den < (1 << prec):
-            return self  # exactly representable: numerator fits the mantissa
-        rounding = self.bound / (1 << prec)
-        self.err = err_in + rounding
-        if self.kind == "f" and not PREC.assume_float_exact:
-            PREC.flag("float-inexact", what, bound=str(self.bound), den=self.den)
+        self.err = self.err + self.bound / (1 << prec)
         return self
 
     # -- arithmetic ----------------------------------------------------------------------------
@@ -595,6 +604,10 @@ class SymQ:
             return NotImplemented
         x = self.num * b.den
         y = b.num * self.den
+        if self.err or b.err:
+            # the real values differ from the model by at most err: the outcome is only determined
+            # when the model values are further apart than that (proved at the end of the path)
+            PREC.robust_cmps.append((x - y, self.den * b.den, self.err + b.err))
         if op == "__lt__":
             return mkbool(x < y)
         if op == "__le__":
